@@ -430,6 +430,22 @@ theorem inv_sweep {h : Heap} (hi : Inv h) (w : Nat) : Inv (sweep h w) := by
         · subst hsl'; exact hnt t true hid
         · subst hsl'; exact hnt t false hid
 
+theorem getElem?_append_replicate {α} (l : List α) (k : Nat) (x : α) (i : Nat) :
+    (l ++ List.replicate k x)[i]? =
+      if i < l.length then l[i]? else if i < l.length + k then some x else none := by
+  rw [List.getElem?_append]
+  split
+  · rfl
+  · rw [List.getElem?_replicate]
+    split <;> split <;> first | rfl | omega
+
+theorem inv_syncTempCounter {h : Heap} (hi : Inv h) (t : Nat) : Inv (syncTempCounter h t) := by
+  unfold syncTempCounter
+  obtain ⟨h1, h2, h3, h4, h5, hd, h6, h7⟩ := hi
+  constructor <;>
+    simp only [getElem?_append_replicate, List.length_append, List.length_replicate] <;>
+    grind [inlineMax]
+
 theorem inv_step {h : Heap} (hi : Inv h) (op : Op) (hok : OpOk h op) : Inv (step h op) := by
   cases op with
   | allocString s => exact inv_allocString hi s
@@ -444,5 +460,6 @@ theorem inv_step {h : Heap} (hi : Inv h) (op : Op) (hok : OpOk h op) : Inv (step
     | some h' => exact inv_popUnmarked hi c hp
   | mark p => exact inv_mark hi p
   | sweep w => exact inv_sweep hi w
+  | syncTemp t => exact inv_syncTempCounter hi t
 
 end SamVerif.Heap
